@@ -148,6 +148,7 @@ func (e *engine) generate() {
 				}
 			}
 			kidOps := map[string]int{"pass": 8, "discard": 2}
+			kidMsg := "N:kid;"
 			split := rng.Intn(100) < e.cs.SplitPct
 			if n := len(e.cs.Pattern); n > 0 {
 				// pattern-driven: skip pause tokens, they mark the previous event
@@ -183,6 +184,9 @@ func (e *engine) generate() {
 				case "K":
 					split = true
 					kidOps = map[string]int{"discard": 1}
+				case "J":
+					split = true
+					kidMsg = "S:kid;"
 				}
 				m["op"] = g.Op
 			}
@@ -190,7 +194,7 @@ func (e *engine) generate() {
 				g.Kids = 1 + rng.Intn(4)
 				var arr []any
 				for k := 0; k < g.Kids; k++ {
-					kid := map[string]any{"id": fmt.Sprintf("%s.c%d", g.ID, k), "pid": g.ID, "op": pick(rng, kidOps), "msg": "N:kid;"}
+					kid := map[string]any{"id": fmt.Sprintf("%s.c%d", g.ID, k), "pid": g.ID, "op": pick(rng, kidOps), "msg": kidMsg}
 					if e.cs.NestedSplit && rng.Intn(2) == 0 {
 						kid["arr"] = []any{map[string]any{"id": fmt.Sprintf("%s.c%d.d0", g.ID, k), "pid": g.ID, "op": "pass", "msg": "N:grandkid;"}}
 					}
